@@ -195,3 +195,99 @@ func (eng *Engine) lemmaObligations(prop string) ([]*Obligation, error) {
 	}
 	return out, nil
 }
+
+// ---------- structural (call-graph) frame conditions ----------
+
+type structCheck struct {
+	Name    string   `json:"name"`
+	Props   []string `json:"props"`
+	Kind    string   `json:"kind"`    // "only-callers"
+	Callee  string   `json:"callee"`  // full function name, or "invoke:<Iface>.<Method>"
+	Allowed []string `json:"allowed"` // full names of the functions allowed to call it
+	Why     string   `json:"why"`
+}
+
+// structuralObligations evaluates /verif/spec/structure.json on the SSA of /repo.
+// Each check yields an obligation whose goal is the constant true/false computed
+// here (so that it flows through the same reporting); the caller list found is in Desc.
+func (eng *Engine) structuralObligations(prop string) []*Obligation {
+	var checks []structCheck
+	if err := readJSON(filepath.Join(eng.verifDir, "spec", "structure.json"), &checks); err != nil {
+		return nil
+	}
+	var out []*Obligation
+	for _, ck := range checks {
+		if !hasProp(ck.Props, prop) {
+			continue
+		}
+		allowed := map[string]bool{}
+		for _, a := range ck.Allowed {
+			allowed[a] = true
+		}
+		var offenders []string
+		found := 0
+		seen := map[*ssa.Function]bool{}
+		var visit func(f *ssa.Function)
+		visit = func(f *ssa.Function) {
+			if f == nil || seen[f] {
+				return
+			}
+			seen[f] = true
+			for _, b := range f.Blocks {
+				for _, ins := range b.Instrs {
+					ci, ok := ins.(ssa.CallInstruction)
+					if !ok {
+						continue
+					}
+					cc := ci.Common()
+					name := ""
+					if cc.IsInvoke() {
+						name = "invoke:" + types.TypeString(cc.Value.Type(), func(p *types.Package) string { return p.Name() }) + "." + cc.Method.Name()
+					} else if c := cc.StaticCallee(); c != nil {
+						name = c.String()
+					}
+					if name != ck.Callee {
+						continue
+					}
+					found++
+					root := f
+					for root.Parent() != nil {
+						root = root.Parent()
+					}
+					if !allowed[f.String()] && !allowed[root.String()] {
+						offenders = append(offenders, f.String()+" @ "+eng.posString(ins.Pos()))
+					}
+				}
+			}
+			for _, a := range f.AnonFuncs {
+				visit(a)
+			}
+		}
+		for _, sp := range eng.ssaPkgs {
+			if sp == nil {
+				continue
+			}
+			for _, m := range sp.Members {
+				switch x := m.(type) {
+				case *ssa.Function:
+					visit(x)
+				case *ssa.Type:
+					for _, t := range []types.Type{x.Type(), types.NewPointer(x.Type())} {
+						ms := eng.prog.MethodSets.MethodSet(t)
+						for i := 0; i < ms.Len(); i++ {
+							visit(eng.prog.MethodValue(ms.At(i)))
+						}
+					}
+				}
+			}
+		}
+		sc := newScript(ModeBV)
+		goal := "true"
+		if len(offenders) > 0 || found == 0 {
+			goal = "false"
+		}
+		desc := fmt.Sprintf("%d call sites of %s; not allowed: %v", found, ck.Callee, offenders)
+		out = append(out, &Obligation{Name: "structure." + ck.Name, Kind: "structure", Func: "call graph", Pos: "spec/structure.json", Prefix: sc.mark(), Goal: goal, PC: "true", Script: sc, Expect: "unsat", Props: ck.Props, Desc: desc})
+	}
+	return out
+}
